@@ -407,11 +407,14 @@ def rule_H(ctx):
         if not isinstance(track, orders.Obj) or '_Track__POINTS' not in track.fields:
             return None
         return [o.position.xyz() for o in track.fields['_Track__POINTS']]
-    for label, nodes, edges, layout in netmodel.families(tier):
+    fams = [fm + (False,) for fm in netmodel.families(tier)]
+    # the same routes on networks held in geographic coordinates (positions that define no equality): a sample of the families
+    fams += [(fm[0] + ' [geographic coordinates]',) + fm[1:] + (True,) for fm in netmodel.families('quick') if fm[0].startswith(('chain A-B-C orientations (+0, +0)', 'diamond', 'parallel edges A-B weights (3, 1) orientations (+0, +0)', 'chain whose polylines'))]
+    for label, nodes, edges, layout, geographic in fams:
         n_graphs += 1
         d = H.distances(nodes, edges)
         desc = {'graph': label, 'edges (id, stored source, stored target, orientation, weight)': [list(e) for e in edges]}
-        net, pos, geom = H.build(nodes, edges, layout)
+        net, pos, geom = H.build(nodes, edges, layout, geographic=geographic)
         owned = {id(x) for x in H.owned}
         pairs = [(s, t) for s in nodes for t in nodes if s != t]
         for (s, t) in pairs + list(reversed(pairs)):
